@@ -308,7 +308,7 @@ theorem attrValB_ok {asn4 : Bool} {code : Nat} {v : AttrVal} (h : attrValB asn4 
     simp only [attrValB, Bool.or_eq_true, Bool.and_eq_true, beq_iff_eq, u32B, decide_eq_true_eq] at h
     rcases h with ⟨⟨hc, ha⟩, hi⟩ | ⟨⟨hc, ha⟩, hi⟩
     · left; exact ⟨hc, asnB_ok ha, hi⟩
-    · right; right; exact ⟨hc, a, ip, rfl, ha, hi⟩
+    · right; right; left; exact ⟨hc, a, ip, rfl, ha, hi⟩
   | community cs => left; simpa [attrValB, AttrOk, u32B] using h
   | originatorId ip => left; simpa [attrValB, AttrOk, u32B] using h
   | clusterList ips => left; simpa [attrValB, AttrOk, u32B] using h
@@ -316,7 +316,10 @@ theorem attrValB_ok {asn4 : Bool} {code : Nat} {v : AttrVal} (h : attrValB asn4 
     left
     simp only [attrValB, Bool.and_eq_true, beq_iff_eq, List.all_eq_true, u32B, decide_eq_true_eq] at h
     exact ⟨h.1, fun t ht => ⟨(h.2 t ht).1.1, (h.2 t ht).1.2, (h.2 t ht).2⟩⟩
-  | raw b => simp [attrValB] at h
+  | raw b =>
+    right; right; right
+    simp only [attrValB, Bool.not_eq_true', List.contains_eq_mem, decide_eq_false_iff_not] at h
+    exact ⟨h, b, rfl⟩
   | unmodelled c => simp [attrValB] at h
 
 theorem refPfxB_ok {addpath : Bool} {p : RefPfx} (h : refPfxB addpath p = true) : RefPfxOk addpath p := by
